@@ -837,6 +837,25 @@ def h_view_addassign(wp, n, args, callee):
     return dst
 
 
+def h_tensor_map_assign(wp, n, args, callee):
+    """tensor_map_t = tensor_map_t (copy or move assignment of a MAPPING tensor: tensor_t::operator= -> tensor_marray_storage_t::
+    operator= -> copy(): `map_vector(data(), size()) = map_vector(other.data(), other.size())`), call-site contract = the clause
+    proved for storage_t_map_assign_map / storage_t_map_move_assign / storage_ms_copy_m (CBMC, specs/C16/storage.h): the sizes
+    are equal (the assert in copy(): an obligation here), the source range is the destination range itself or does not overlap it
+    (Eigen's aliasing rule for Map = Map: an obligation here), coefficient k of the source is copied to coefficient k of the
+    destination, the mapping keeps its own pointer and dims"""
+    dst, src = wp.tensor_of(args[0]), wp.tensor_of(args[1])
+    D, S = wp.tens[dst], wp.tens[src]
+    ld, ls = wp.P(dst)[0], wp.P(src)[0]
+    wp.oblige('callee tensor_map_t = tensor_map_t precondition (assert in tensor_marray_storage_t::copy): equal sizes', f'(= {ld} {ls})', n)
+    if D['buf'] == S['buf']:
+        wp.oblige('callee tensor_map_t = tensor_map_t precondition (Eigen Map = Map): the source range is the destination range or disjoint from it',
+                  f'(or (= {D["off"]} {S["off"]}) (<= (+ {D["off"]} {ld}) {S["off"]}) (<= (+ {S["off"]} {ls}) {D["off"]}))', n)
+    wp.record_copy(D['buf'], D['off'], S['buf'], S['off'], ld)
+    wp.events.append(('copy', D['buf'], S['buf']))
+    return wp.env[dst]
+
+
 def h_integral_get(wp, n, args, callee):
     """integral_t<R>::get(itensor, otensor), call-site contract: same dims, no empty axis (integral() checks size() > 0
     and asserts the dims equal); fills otensor with the summed-area table of itensor (values: CBMC side for rank 1)"""
@@ -898,6 +917,7 @@ CALLS = [
     (r'^operator\[\]\|.*std::array', h_array_subscript),
     (r'^map_vector\|', h_map_vector), (r'^map_matrix\|', h_map_matrix), (r'^map_tensor\|', h_map_tensor),
     (r'^operator\+=\|.*Eigen::', h_view_addassign),
+    (r'^operator=\|.*tensor_t<nano::tensor_marray_storage_t', h_tensor_map_assign),
     (r'^operator=\|std::array', h_array_assign), (r'^operator=\|.*Eigen::', h_view_assign),
     (r'^operator\(\)\|', h_call_operator),
 ]
